@@ -610,6 +610,67 @@ def cells():
             n += 1
             yield ("call:" + fname, typ, mk, False, pos, n)
 
+SHARED_FILTERS = [
+    "comments/any(c: contains(c/text, 'zs1'))",
+    "comments/any(c: c/text in ('zs2', 'zs3'))",
+    "comments/all(c: 'zs4' in (c/text, 'zs5'))",
+    "comments/any(c: startswith(tolower(c/text), 'zs6') and length(c/text) gt 7101)",
+    "comments/any(c: concat(c/text, c/text) eq 'zs7')",
+    "author/name in ('zs8', 'zs9') and comments/any(c: indexof(c/text, 'zs10') ge 7102)",
+    "comments/any(c: c/author/name eq 'zs11' or endswith(c/author/name, 'zs12'))",
+    "tags/all(t: substring(t/label, 1) ne 'zs13') and tags/any(t: t/weight in (7103, 7104))",
+    "comments/any(c: c/replies/any(r: contains(r/text, c/text)))",
+    "contains(title, 'zs14') and rating in (7105, 7106)",
+]
+
+
+def _rendering(backend, out):
+    if out[0] == "exc":
+        e = out[1]
+        return "exc:%s:%s" % (type(e).__name__, str(e)[:200])
+    res = out[1]
+    if backend == "django":
+        return "ok:" + str(res[1])
+    if backend.startswith("sqlalchemy"):
+        return "ok:" + str(res[1])
+    return "ok:" + repr(res)
+
+
+def shared_ast_lane(ctx, idx):
+    """History: ONE parsed AST handed to every backend in turn (an application that applies a filter and then
+    echoes or logs it). What each backend returns for the shared object must be what it returns for a fresh
+    parse of the same text - a translation that depends on who saw the tree before has a part replaced."""
+    for text in SHARED_FILTERS:
+        for first in ("sqlalchemy-orm", "django", "roundtrip", "sql-sqlite"):
+            idx += 1
+            if not ctx.mine(idx):
+                continue
+            o = drive.parse_ast(text)
+            if o[0] != "ok":
+                ctx.count("source_rejected")
+                continue
+            shared = o[1]
+            order = [first] + [b for b in BACKENDS if b != first]
+            for k, backend in enumerate(order):
+                fresh = drive.parse_ast(text)[1]
+                want = _rendering(backend, run_backend(backend, fresh, True, "Post"))
+                got_out = run_backend(backend, shared, True, "Post")
+                got = _rendering(backend, got_out)
+                ctx.count("shared_ast_compared")
+                ctx.cls("shared-ast:" + backend)
+                if got_out[0] == "exc" and isinstance(got_out[1], contracts.MonitorViolation):
+                    ctx.fail({"kind": "shared-ast", "filter": text, "backend": backend, "before": order[:k]},
+                             "monitor fired: " + got_out[1].monitor, observed=str(got_out[1])[:300],
+                             cls="shared-ast", sig=["shared-ast-monitor", backend])
+                    break
+                if got != want:
+                    ctx.fail({"kind": "shared-ast", "filter": text, "backend": backend, "before": order[:k]},
+                             "the translation of an AST object that other backends translated before differs "
+                             "from the translation of a fresh parse", expected=want[:400], observed=got[:400],
+                             cls="shared-ast", sig=["shared-ast", backend])
+                    break
+    return idx
+
 
 def run(ctx):
     contracts.install_parse()
@@ -650,6 +711,7 @@ def run(ctx):
             idx += 1
             if ctx.mine(idx):
                 judge(ctx, kname, "comment-root", t, backend, True, False, root="Comment")
+    idx = shared_ast_lane(ctx, idx)
     ctx.count("exhaustive_complete")
     # thorough: random well-typed compositions (every function, nested) through all backends;
     # judged on fall-through / None parts / foreign exceptions only (no leaf matching)
@@ -699,6 +761,19 @@ def replay(ctx, case):
     contracts.install_visit_trace()
     shipped.setup()
     sqla_env.engine()
+    if case["kind"] == "shared-ast":
+        shared = drive.parse_ast(case["filter"])[1]
+        for backend in list(case.get("before", [])) + [case["backend"]]:
+            want = _rendering(backend, run_backend(backend, drive.parse_ast(case["filter"])[1], True, "Post"))
+            out = run_backend(backend, shared, True, "Post")
+            got = _rendering(backend, out)
+            if out[0] == "exc" and isinstance(out[1], contracts.MonitorViolation):
+                ctx.fail(case, "monitor fired: " + out[1].monitor, observed=str(out[1])[:300])
+                return
+            print(backend, "same" if got == want else "DIFFERS\n  fresh:  %s\n  shared: %s" % (want[:300], got[:300]))
+            if got != want:
+                ctx.fail(case, "shared AST translates differently from a fresh parse", expected=want[:400], observed=got[:400])
+        return
     t = drive.parse_term(case["filter"])[1]
     rel = any(n[0] in ("attr", "lam") for n in T.walk(t)) and case["kind"] in [k[0] for k in REL_KINDS]
     judge(ctx, case["kind"], case["position"], t, case["backend"], rel,
